@@ -602,3 +602,106 @@ func RuleR3(r *Report, p *Program) {
 		r.Check(keysOf(out) == want, "R3", n, p.Pos(fn.Pos()), want, "operation can reach transports {"+keysOf(out)+"}, expected {"+want+"}")
 	}
 }
+
+// B11: the broadcast helper keeps exactly the well-formed replies, in order, and never fails on a bad one.
+func RuleBroadcastHelper(r *Report, p *Program) {
+	r.Rule("B11", "the broadcast helper keeps a reply iff it is 64 bytes long and decodes; kept replies stay in arrival order (duplicates included); a malformed reply never fails the call", 1)
+	l, err := NewLayoutEngine(p)
+	if err != nil {
+		r.Fatal("B11", "layout", err.Error())
+		return
+	}
+	a, err := NewAPI(p, l)
+	if err != nil {
+		r.Fatal("B11", "api", err.Error())
+		return
+	}
+	fn := a.broadcastSender()
+	if fn == nil {
+		r.Fatal("B11", "broadcast-helper", "not found")
+		return
+	}
+	const N = 3
+	w := NewWalker(p)
+	w.LoopFuel = N + 2
+	up := p.SSAPkg("uhppote")
+	w.Inline = func(f *ssa.Function, d int) bool {
+		return f.Parent() != nil || (f.Pkg == up && a.Senders[f] == "" && f.Signature.Recv() != nil && len(f.Blocks) <= 8)
+	}
+	w.Opaque["(*uhppote.uhppote).debugf"] = true
+	w.OnCall = func(w *Walker, name string, args []*Term, c *ssa.CallCommon, in ssa.Instruction) (*Term, bool) {
+		if !c.IsInvoke() || driverKind(c.Method.Type().(*types.Signature)) != "broadcast-all" {
+			return nil, false
+		}
+		rt := c.Method.Type().(*types.Signature).Results().At(0).Type()
+		et := rt.Underlying().(*types.Slice).Elem()
+		at := types.NewArray(et, N)
+		cell := w.newCell("datagrams", at, true)
+		els := make([]*Term, N)
+		for i := range els {
+			els[i] = &Term{Op: "param", Name: fmt.Sprintf("dg%d", i), Typ: et}
+		}
+		cell.Val = &Term{Op: "slicev", Args: els, Typ: at}
+		sl := &Term{Op: "sref", Cell: cell, Typ: rt, Args: []*Term{mkInt(0, types.Typ[types.Int]), mkInt(N, types.Typ[types.Int])}}
+		errT := &Term{Op: "fresh", Name: "transporterr", Typ: types.Universe.Lookup("error").Type()}
+		w.event(Event{Kind: "call", Name: "transport:broadcast-all", Args: args, Pos: in.Pos(), Instr: in})
+		return &Term{Op: "tuple", Args: []*Term{sl, errT}}, true
+	}
+	args := []*Term{{Op: "param", Name: "u", Typ: fn.Params[0].Type()}, {Op: "param", Name: "request", Typ: fn.Params[1].Type()}, {Op: "param", Name: "proto", Typ: fn.Params[2].Type()}}
+	paths := w.Walk(fn, args, nil)
+	bad := ""
+	nOK := 0
+	for _, pa := range paths {
+		if pa.Outcome != "return" {
+			bad = "path ends in " + pa.Outcome + ": " + pa.Detail
+			continue
+		}
+		terr, hasT := pa.State.Bools["isnil(transporterr)"]
+		if !hasT {
+			// marshal failed before sending
+			continue
+		}
+		en := errNilness(pa, pa.Results[1])
+		if !terr {
+			if en != 0 {
+				bad = "a transport failure is not reported"
+			}
+			continue
+		}
+		if en != 1 {
+			bad = "the call fails although the transport succeeded: [" + cut(pa.State.Describe(), 200) + "]"
+			continue
+		}
+		nOK++
+		var want []string
+		for i := 0; i < N; i++ {
+			dg := fmt.Sprintf("dg%d", i)
+			ln, ok := pa.State.Ints["len("+dg+")"]
+			if !ok {
+				bad = "the length of a reply is never examined"
+				continue
+			}
+			if ln.String() != "{64}" {
+				continue
+			}
+			for k, v := range pa.State.Bools {
+				if strings.HasPrefix(k, "isnil(codec.UnmarshalAs") && strings.Contains(k, "("+dg+",") && v {
+					want = append(want, strings.TrimSuffix(strings.TrimPrefix(k, "isnil("), "#1)")+"#0")
+				}
+			}
+		}
+		var have []string
+		res := pa.Results[0]
+		if res.Op == "sref" {
+			for _, e := range srefElems(res) {
+				have = append(have, e.String())
+			}
+		} else if !res.IsNilConst() {
+			have = append(have, "?"+res.String())
+		}
+		if strings.Join(have, " ; ") != strings.Join(want, " ; ") {
+			bad = fmt.Sprintf("kept replies are [%s], the accepted ones in arrival order are [%s]", cut(strings.Join(have, " ; "), 200), cut(strings.Join(want, " ; "), 200))
+		}
+	}
+	r.Check(bad == "" && nOK >= 8, "B11", calleeName(fn), p.Pos(fn.Pos()), fmt.Sprintf("%d paths, %d after a successful transport call, %d replies each", len(paths), nOK, N), bad)
+}
